@@ -165,7 +165,29 @@ def run(ctx):
         raise AnalysisError('anchor vanished: no access to %s' % TABLE)
     # positive control for the expected-zero "foreign writer" rule
     _positive_control(ctx)
-    handlers = sorted(q for q in owners if q.startswith(CLS + '.'))
+    # a method the rules do not know by name (a helper extracted by a
+    # refactoring) is transparent: it is analysed inlined into the methods
+    # that call it, which then count as handlers
+    known = prog.known_funcs() or set(prog.all_funcs)
+    helpers = {q for q in owners if q not in known}
+    grew = True
+    while grew:
+        grew = False
+        for fi in cls.methods.values():
+            if fi.qualname in owners:
+                continue
+            for node in prog._iter_scope(fi.node):
+                if isinstance(node, ast.Attribute) and \
+                        isinstance(node.value, ast.Name) and \
+                        node.value.id == 'self' and \
+                        CLS + '.' + node.attr in helpers:
+                    owners.add(fi.qualname)
+                    if fi.qualname not in known:
+                        helpers.add(fi.qualname)
+                    grew = True
+                    break
+    handlers = sorted(q for q in owners if q.startswith(CLS + '.') and
+                      q not in helpers)
     ctx.extra['handlers'] = handlers
 
     def paths_of(q, **kw):
